@@ -122,6 +122,11 @@ def run(ctx):
     for _ in range(ctx.n(900, 20000)):
         p = gp.gen_pep(rng, cfg)
         n = len(p.seq)
+        if p.res and rng.random() < 0.15:
+            # a residue that carries one of its modifications twice keeps both copies in every result
+            import copy as _copy
+            k_ = rng.choice(sorted(p.res))
+            p.res[k_] = p.res[k_] + [_copy.deepcopy(rng.choice(p.res[k_]))]
         for fn in FNS:
             sizes = [None, n + 1] + [rng.randint(1, n)]
             if rng.random() < 0.3:
